@@ -136,8 +136,19 @@ func runC16(env *Env, tier string) {
 	twinKey := []string{config.SenderCompID, config.SenderSubID, config.SenderLocationID, config.TargetCompID, config.TargetSubID,
 		config.TargetLocationID, config.SessionQualifier, config.BeginString}[ch.Choose("twinkey", 8)]
 	collide := twins && nsess == 2 && ch.Chance("collide", 1, 6)
+	// which optional id parts are empty in every twin (the part the twins differ in is then empty in the first
+	// of them only): code that treats a part differently when its neighbour is absent is reached only this way
+	blank := map[string]bool{}
 	if twins {
 		env.Stat("probe_sessions_differing_in_one_id_part")
+		for _, k := range []string{config.SenderSubID, config.SenderLocationID, config.TargetSubID, config.TargetLocationID, config.SessionQualifier} {
+			if ch.Chance("blankpart", 1, 3) {
+				blank[k] = true
+			}
+		}
+		if len(blank) > 0 {
+			env.Stat("probe_twin_sessions_with_empty_id_parts")
+		}
 	}
 	if collide && kind == "file" {
 		// known finding: the file store derives its file names from the id parts that are present, joined
@@ -158,6 +169,9 @@ func runC16(env *Env, tier string) {
 			ss.Set(config.TargetSubID, "TS")
 			ss.Set(config.TargetLocationID, "TL")
 			ss.Set(config.SessionQualifier, "Q")
+			for k := range blank {
+				ss.Set(k, "")
+			}
 			if collide {
 				// ... or differ in WHICH part carries a value: SenderSubID "X" here, SenderLocationID "X" there
 				ss.Set(config.SenderSubID, "")
